@@ -91,6 +91,15 @@ HIST.update({
  "C20-5":"missed by C20 at first (C06 caught it) -> verifC06AddRemote is part of C20",
  "C20-6":"caught on the first run",
 })
+HIST.update({
+ "C03-7":"round 5; caught on the first run (same slip as C03-1, found independently)",
+ "C14-7":"round 5; caught on the first run",
+ "C16-7":"round 5; missed at first (foundations were always the computed decimal CRC) -> verifC16FoundationRoundTrip with symbolic ice-char foundations",
+ "C17-7":"round 5; caught on the first run",
+ "C19-7":"round 5; caught on the first run",
+ "C20-7":"round 5; missed at first (a pair was never nominated twice while its nomination was deferred) -> verifC20DeferredRearmed",
+})
+
 rows=[]
 for d in sorted(glob.glob('/verif/seeded/*/meta.json')):
     name=os.path.basename(os.path.dirname(d))
